@@ -176,19 +176,120 @@ def w_outgoing() -> Part:
     return part
 
 
+def w_keyring_init() -> Part:
+    """The same guarantees when Data Secure is initialised the way applications do it - CEMIHandler.data_secure_init(keyring) -
+    over keyring shapes: keyed group addresses {one, two} x senders known from {nothing, an interface's group list, the device
+    list, both} x an interface entry without senders."""
+    from xknx import XKNX
+    from xknx.secure.keyring import InterfaceType, Keyring, XMLDevice, XMLGroupAddress, XMLInterface
+    from xknx.telegram import IndividualAddress
+
+    part = Part()
+    calls: list[Any] = []
+    orig = Management.process
+    Management.process = lambda self, telegram: calls.append(telegram)  # type: ignore[method-assign]
+    try:
+        for n_keys in (1, 2):
+            for senders_from in ("nothing", "interface", "devices", "both", "interface-without-senders"):
+                kr = Keyring()
+                for i in range(n_keys):
+                    g = XMLGroupAddress()
+                    g.address = GroupAddress(KEYED + 0x10 * i)
+                    g.decrypted_key = KEY
+                    kr.group_addresses.append(g)
+                if senders_from in ("interface", "both", "interface-without-senders"):
+                    itf = XMLInterface()
+                    itf.type = InterfaceType.TUNNELING
+                    itf.individual_address = IndividualAddress(0x1105)
+                    itf.group_addresses = {GroupAddress(KEYED): [] if senders_from == "interface-without-senders" else [IndividualAddress(SENDER)]}
+                    kr.interfaces.append(itf)
+                if senders_from in ("devices", "both"):
+                    d = XMLDevice()
+                    d.individual_address = IndividualAddress(SENDER)
+                    d.sequence_number = 3
+                    kr.devices.append(d)
+                sender_known = senders_from in ("interface", "devices", "both")
+                for name, apdu in PLAIN_APDUS.items():
+                    xknx = XKNX()
+                    xknx.current_address = IndividualAddress(0x1105)
+                    issues: list[Any] = []
+                    xknx.telegram_queue.register_data_secure_group_key_issue_cb(issues.append)
+                    case = {"kind": "keyring-init", "keys": n_keys, "senders_from": senders_from, "apdu": name}
+                    try:
+                        xknx.cemi_handler.data_secure_init(kr)
+                    except Exception as exc:  # noqa: BLE001
+                        part.viol(exc_sig("data-secure-init-raises", exc), f"{case}: {exc!r}", case)
+                        continue
+
+                    def feed(raw: bytes) -> tuple[list[Any], BaseException | None]:
+                        try:
+                            xknx.cemi_handler.handle_raw_cemi(raw)
+                        except BaseException as e:  # noqa: BLE001
+                            return [], e
+                        out = []
+                        while not xknx.telegrams.empty():
+                            out.append(xknx.telegrams.get_nowait())
+                        return out, None
+
+                    for ga, keyed in ((KEYED, True), (UNKEYED, False)):
+                        part.evaluations += 1
+                        part.nontrivial += 1
+                        n_iss = len(issues)
+                        got, exc = feed(plain_frame(SENDER, ga, apdu))
+                        if exc is not None:
+                            part.viol(exc_sig("plain-frame-raises", exc), f"{case} ga={ga:#06x}: {exc!r}", case)
+                        elif keyed and (got or calls):
+                            part.viol("plain-frame-delivered-to-secured-group:keyring-init", f"{case}: a plain frame to the keyed group address reached the telegram queue: {got}", case)
+                        elif keyed and len(issues) - n_iss != 1:
+                            part.viol("plain-frame-to-secured-group-not-reported:keyring-init", f"{case}: key-issue callbacks={len(issues) - n_iss}", case)
+                        elif not keyed and len(got) != 1:
+                            part.viol("plain-frame-to-plain-group-not-delivered:keyring-init", f"{case}: {got}", case)
+                        calls.clear()
+                    # a correctly secured frame from the sender: delivered exactly when the keyring names the sender
+                    part.evaluations += 1
+                    got, exc = feed(secure_frame(KEY, SENDER, KEYED, 5, apdu))
+                    if exc is not None:
+                        part.viol(exc_sig("secured-frame-raises", exc), f"{case}: {exc!r}", case)
+                    elif sender_known and (len(got) != 1 or not got[0].data_secure):
+                        part.viol("secured-frame-not-delivered:keyring-init", f"{case}: {got}", case)
+                    elif not sender_known and got:
+                        part.viol("secured-frame-from-unknown-sender-delivered:keyring-init", f"{case}: {got}", case)
+                    # outgoing to the keyed address leaves secured
+                    ds = xknx.cemi_handler.data_secure
+                    from xknx.cemi import CEMILData
+
+                    part.evaluations += 1
+                    try:
+                        tg = Telegram(GroupAddress(KEYED), payload=GroupValueWrite(DPTBinary(1)))
+                        data = CEMILData.init_from_telegram(tg, src_addr=IndividualAddress(0x1105))
+                        out = ds.outgoing_cemi(data) if ds is not None else data
+                        if not isinstance(out.payload, SecureAPDU):
+                            part.viol("plain-frame-sent-to-secured-group:keyring-init", f"{case}: outgoing frame for the keyed group address is not secured (data_secure={'None' if ds is None else 'set'})", case)
+                    except Exception as exc:  # noqa: BLE001
+                        part.viol(exc_sig("outgoing-raises", exc), f"{case}: {exc!r}", case)
+    finally:
+        Management.process = orig  # type: ignore[method-assign]
+    return part
+
+
 def run(ctx: Ctx) -> None:
     ctx.rule = (
         "real CEMIHandler with DataSecure: plain GroupValueWrite(6-bit/array)/Read/Response frames to a keyed and an unkeyed group; secured frames (reference-built) to keyed/unkeyed groups and from an "
         "unknown sender; correctly authenticated frames (both algorithms) carrying ONE representative of EVERY (APCI code, failure kind) class of the C04 struct space (all 1024 codes) plus empty and "
         "1-octet inner APDUs; outgoing telegrams of 5 payload kinds to keyed/unkeyed groups through send_telegram. Oracle: nothing raises; plain->keyed only reaches the key-issue callbacks; "
-        "malformed content is never delivered; outgoing to keyed groups is always a SecureAPDU that a second receiver decodes to the original"
+        "malformed content is never delivered; outgoing to keyed groups is always a SecureAPDU that a second receiver decodes to the original; the plain/secured/outgoing clauses again with Data Secure initialised through "
+        "CEMIHandler.data_secure_init(keyring) over 10 keyring shapes (1-2 keyed groups x senders known from nothing / an interface / the device list / both / an interface entry without senders)"
     )
     ctx.pmap(w_plain_and_secured, [()])
     ctx.pmap(w_inner, [(c, c + 64) for c in range(0, 1024, 64)])
     ctx.pmap(w_outgoing, [()])
+    ctx.pmap(w_keyring_init, [()])
 
 
 def replay(case: Any) -> list[tuple[str, str]]:
+    if case.get("kind") == "keyring-init":
+        p = w_keyring_init()
+        return [(sg, v[1]) for sg, v in p.viols.items()]
     if case.get("kind") == "inner":
         orig = Management.process
         Management.process = lambda self, telegram: None  # type: ignore[method-assign]
